@@ -61,13 +61,14 @@ func ReingestTable(db objects.Store, s *sorter.Sorter, tbl *objects.Table, useBl
 		// search blocks for duplicated rows
 		var blk [][]string
 		var prevRow = make([]string, len(tbl.Columns))
+		firstRow := true
 		for _, sum := range tbl.Blocks {
 			blk, bb, err = objects.GetBlock(db, bb, sum)
 			if err != nil {
 				return nil, fmt.Errorf("objects.GetBlock error: %v", err)
 			}
 			for j := 0; j < len(blk); j++ {
-				if slice.StringSliceEqual(blk[j], prevRow) {
+				if !firstRow && slice.StringSliceEqual(blk[j], prevRow) {
 					newTableSum, err = reingestTable(db, s, tbl, logger, opts...)
 					if err != nil {
 						return nil, fmt.Errorf("reingestTable error: %v", err)
@@ -75,6 +76,7 @@ func ReingestTable(db objects.Store, s *sorter.Sorter, tbl *objects.Table, useBl
 					return newTableSum, nil
 				}
 				copy(prevRow, blk[j])
+				firstRow = false
 			}
 		}
 	}
